@@ -100,6 +100,23 @@ def run(chk: core.Check):
                 report(chk, d.text, "blocks", f"block {i + 1}: {keys_obs[i] if i < len(keys_obs) else 'missing'} expected "
                                               f"{keys_exp[i] if i < len(keys_exp) else 'nothing'}", r["obs"], r["exp"], "default")
     chk.clause("T3.default(one block per source block, classes, keys, field keys)", len(docs))
+    # the same texts once more with an EMPTY stack, after the default stack has worked on them: verbatim values are a
+    # function of the text, not of what an earlier call did with the blocks it got
+    again = docs[:300]
+    recs = splitpipe.t3(chk, bib, [d.text for d in again], how="parse0", grammar=True)
+    for d, r in zip(again, recs):
+        if r["raised"]:
+            report(chk, d.text, "raised", r["raised"], [], r["exp"], "parse0 after default")
+            continue
+        td = docgen.truth_diff(d.truth, r["obs"]) if not r["diff"].get("tiling") else {"tiling": r["diff"]["tiling"]}
+        both = dict(td)
+        for c in MINE:
+            if c in r["diff"]:
+                both.setdefault(c, r["diff"][c])
+        mine = [c for c in MINE if c in both]
+        if mine:
+            report(chk, d.text, mine[0], both[mine[0]], r["obs"], r["exp"], "parse0 after default")
+    chk.clause("T3.parse0_again_after_default", len(again))
     chk.sample({"document": docs[-1].text[:400], "truth": [[t["cls"], t.get("key", "")] for t in docs[-1].truth[:8]]})
     chk.assumptions += ["the dialect is the grammar of DESIGN 3.3 (BibGrammar.tla); keys of entries/strings pairwise distinct",
                         "start lines and field lines are C03's subject and not reported here"]
